@@ -136,16 +136,19 @@ func (c *Ctx) Explore(fn *ssa.Function, cfg ExploreConfig, tag string) *Explorat
 			cfg.MaxDepth = 5
 		}
 		if cfg.MaxPaths == 0 {
-			cfg.MaxPaths = 200000
+			cfg.MaxPaths = 1500000
 		}
 		if cfg.MaxSteps == 0 {
-			cfg.MaxSteps = 40000000
+			cfg.MaxSteps = 300000000
 		}
 		if cfg.MaxVisits == 0 {
 			cfg.MaxVisits = 3
 		}
 	}
 	ex := c.P.Explore(fn, cfg)
+	if os.Getenv("FOSITELINT_DEBUG") != "" {
+		fmt.Fprintf(os.Stderr, "explore %s [%s]: paths=%d steps=%d dropped=%d %s\n", fnShort(fn), tag, len(ex.Paths), ex.Steps, ex.Dropped, ex.Truncated)
+	}
 	c.expl[k] = ex
 	c.Fns[fnShort(fn)] = true
 	c.NPaths += len(ex.Paths)
